@@ -28,13 +28,14 @@ import (
 
 type keFront struct {
 	e    *env
+	ip   net.IP // the address it listens on; the real NTS-KE server of that address is behind it
 	mode atomic.Int64
 	arg  atomic.Int64
 }
 
-func newKeFront(e *env) *keFront {
-	f := &keFront{e: e}
-	ln, err := net.Listen("tcp4", net.JoinHostPort(e.ip.String(), strconv.Itoa(frontPort)))
+func newKeFront(e *env, ip net.IP) *keFront {
+	f := &keFront{e: e, ip: ip}
+	ln, err := net.Listen("tcp4", net.JoinHostPort(ip.String(), strconv.Itoa(frontPort)))
 	if err != nil {
 		fatal("front: %v", err)
 	}
@@ -54,7 +55,7 @@ func (f *keFront) serve(c net.Conn, mode, arg int64) {
 	defer c.Close()
 	switch mode {
 	case 0, 2:
-		up, err := net.DialTimeout("tcp4", net.JoinHostPort(f.e.ip.String(), strconv.Itoa(ntske.ServerPortIP)), waitLong)
+		up, err := net.DialTimeout("tcp4", net.JoinHostPort(f.ip.String(), strconv.Itoa(ntske.ServerPortIP)), waitLong)
 		if err != nil {
 			return
 		}
